@@ -293,7 +293,7 @@ fn idx_range(c: &(u16, u16), obs: &mut Obs) -> CaseResult {
 }
 
 pub fn run(run: &mut Run) {
-    let n = run.cases(200_000, 10_000_000);
+    let n = run.cases(1_000_000, 40_000_000);
     run.sub(
         "vaddr",
         "(start, count, end): canonical start/end from the edge-biased generator (both halves, gap and space-end neighbours), counts small / page multiples / edge-biased u64 / >=2^48 / near u64::MAX/SIZE; oracle: u128 position model pos=a&(2^48-1): forward/backward exist iff position in 0..2^48, steps_between exact iff end>=start, three mutual-inverse laws, unchecked forms panic iff checked is None; non-trivial = step crosses or lands within 8192 of a gap end / end of space, or count>=2^48, or start/end in different halves; distinct by (start,count,end)",
@@ -301,7 +301,7 @@ pub fn run(run: &mut Run) {
         (canon_va(), count(), canon_va()),
         vstep,
     );
-    let n = run.cases(200_000, 10_000_000);
+    let n = run.cases(1_000_000, 40_000_000);
     run.sub(
         "page",
         "(size, start, count, end) for 4KiB/2MiB/1GiB pages: same position model in whole pages, count*SIZE overflow => None; non-trivial as for addresses or count*SIZE overflows u64",
@@ -309,7 +309,7 @@ pub fn run(run: &mut Run) {
         (size_sel(), canon_va(), count(), canon_va()),
         pstep,
     );
-    let n = run.cases(60_000, 2_000_000);
+    let n = run.cases(200_000, 8_000_000);
     run.sub(
         "index",
         "(index, count, index2) over all 512 indices x edge-biased counts: forward exists iff i+n<512, backward iff n<=i, steps_between exact; non-trivial = result within 2 of either end or not existing",
@@ -317,7 +317,7 @@ pub fn run(run: &mut Run) {
         (0u16..512, prop_oneof![0u64..600, count()], 0u16..512),
         istep,
     );
-    let n = run.cases(20_000, 1_000_000);
+    let n = run.cases(100_000, 4_000_000);
     run.sub(
         "range_iter",
         "short (<48 items) a..b and a..=b ranges of VirtAddr / Page<4K,2M,1G> placed around a generated anchor (gap ends and ends of the space frequent), forward, reversed and size_hint; oracle: the model's list of positions; non-trivial = range straddles the gap or touches an end of the space; distinct by (unit,start,len)",
@@ -325,7 +325,7 @@ pub fn run(run: &mut Run) {
         (0u8..4, prop_oneof![Just(GAP_HI), Just(0u64), Just(u64::MAX), canon_va()], 0u16..48, 0u16..48),
         range_iter,
     );
-    let n = run.cases(5_000, 200_000);
+    let n = run.cases(20_000, 800_000);
     run.sub(
         "index_range",
         "PageTableIndex ranges i..j and i..=j vs integer ranges; non-trivial = touches 0 or 511",
